@@ -201,6 +201,7 @@ pub struct Acc {
     pub entries: &'static [(&'static str, bool)],
     pub desc_parser_ok: bool,
     pub ms_consensus_parser_ok: bool,
+    pub consensus_reject_if: bool,
     pub sigless_rejected: bool,
     pub limits: &'static [(u8, u32, bool, u32)],
     pub dup_expected: bool,
@@ -226,8 +227,12 @@ pub fn acc(a: &Acc) {
         i += 1;
     }
     // (2) what the descriptor parser accepts, the miniscript parser with consensus parameters accepts
-    if a.desc_parser_ok {
-        chk!(a.ms_consensus_parser_ok, "descriptor parser accepts a script the miniscript parser with consensus parameters rejects");
+    if a.desc_parser_ok && !a.ms_consensus_parser_ok {
+        if a.consensus_reject_if && (sh.ctx == vm::LEGACY || sh.ctx == vm::BARE) {
+            chk!(false, "descriptor parser accepts or_i / d: in a pre-segwit context although that context's consensus parameters forbid them");
+        } else {
+            chk!(false, "descriptor parser accepts a script the miniscript parser with consensus parameters rejects");
+        }
     }
     // (3) limit switches reject exactly above the script's own figure
     let mut i = 0;
